@@ -126,6 +126,8 @@ class TermBuilder:
         if k == "deref":
             if t[0] == "ref":
                 return t[1]
+            if t[0] == "upvar":  # by-ref capture: same value, one indirection less
+                return t
             return ("deref", t)
         if k == "f":
             if t == ("env",) or t == ("deref", ("env",)):
@@ -159,7 +161,10 @@ class TermBuilder:
         if "use" in rv:
             return self.joperand(rv["use"], stack)
         if "ref" in rv:
-            return ("ref", self.jplace(rv["ref"], stack))
+            inner = self.jplace(rv["ref"], stack)
+            if inner[0] == "deref":  # reborrow `&*x` == x
+                return inner[1]
+            return ("ref", inner)
         if "rawptr" in rv:
             return ("ref", self.jplace(rv["rawptr"], stack))
         if "bin" in rv:
@@ -190,6 +195,8 @@ class TermBuilder:
     def call_term(self, c, stack=()):
         args = tuple(self.joperand(a, stack) for a in c["args"])
         callee = c.get("callee") or ("fnptr:" + c.get("fnty", "?"))
+        if callee in LEN_FNS and len(args) == 1:
+            return ("len", strip_refs(args[0]))
         return ("call", callee, args)
 
     def promoted_value(self):
@@ -240,6 +247,8 @@ def strip_casts(t):
             break
     return t
 
+
+LEN_FNS = {"core::slice::<impl [T]>::len", "std::vec::Vec::<T, A>::len", "core::str::<impl str>::len"}
 
 CONV_FNS = {
     "<usize as std::convert::From<u8>>::from",
